@@ -18,6 +18,7 @@ import (
 	"os"
 	"path/filepath"
 	"sort"
+	"strings"
 	"testing"
 
 	"github.com/AdguardTeam/AdGuardHome/internal/configmigrate"
@@ -210,4 +211,274 @@ func vfC13Diff(a, b []byte) (s string) {
 	}
 
 	return s
+}
+
+// vfC13SigRetyped is the signature of the listed finding: the upgrade decodes
+// the whole file without types and encodes it again, so a string setting whose
+// plain spelling looks like a number, a date or null comes out as another
+// string (007 -> "7", 2024-01-01 -> "2024-01-01T00:00:00Z", 1.10 -> "1.1").
+const vfC13SigRetyped = "upgrade-retypes-plain-scalars-of-string-settings"
+
+// vfC13Path addresses a scalar in a YAML node tree: mapping keys and sequence
+// indices from the document's root mapping down.
+type vfC13Path []string
+
+// vfC13StringScalars collects the paths of all string-valued scalars.
+func vfC13StringScalars(n *yaml.Node, at vfC13Path, out *[]vfC13Path) {
+	switch n.Kind {
+	case yaml.DocumentNode:
+		for _, c := range n.Content {
+			vfC13StringScalars(c, at, out)
+		}
+	case yaml.MappingNode:
+		for i := 0; i+1 < len(n.Content); i += 2 {
+			vfC13StringScalars(n.Content[i+1], append(append(vfC13Path{}, at...), n.Content[i].Value), out)
+		}
+	case yaml.SequenceNode:
+		for i, c := range n.Content {
+			vfC13StringScalars(c, append(append(vfC13Path{}, at...), fmt.Sprint(i)), out)
+		}
+	case yaml.ScalarNode:
+		if n.ShortTag() == "!!str" && n.Value != "" {
+			*out = append(*out, at)
+		}
+	}
+}
+
+// vfC13NodeAt finds the node a path leads to, or nil.
+func vfC13NodeAt(n *yaml.Node, p vfC13Path) (found *yaml.Node) {
+	if n.Kind == yaml.DocumentNode && len(n.Content) == 1 {
+		n = n.Content[0]
+	}
+	for _, step := range p {
+		switch n.Kind {
+		case yaml.MappingNode:
+			var next *yaml.Node
+			for i := 0; i+1 < len(n.Content); i += 2 {
+				if n.Content[i].Value == step {
+					next = n.Content[i+1]
+				}
+			}
+			if next == nil {
+				return nil
+			}
+			n = next
+		case yaml.SequenceNode:
+			var idx int
+			if _, err := fmt.Sscanf(step, "%d", &idx); err != nil || idx < 0 || idx >= len(n.Content) {
+				return nil
+			}
+			n = n.Content[idx]
+		default:
+			return nil
+		}
+	}
+
+	return n
+}
+
+// vfC13Respell makes the scalar a plain (unquoted) one with the given text.
+func vfC13Respell(n *yaml.Node, text string) {
+	n.Value, n.Tag, n.Style = text, "", 0
+}
+
+var (
+	// spellings that stay strings whoever reads them
+	vfC13PlainStrings = []string{"abc", "v1x", "two words", "00x7", "a-b.example", "007a", "1.2.3.4.5"}
+	// spellings that an untyped reader takes for a number, a date or null
+	vfC13LookAlikes = []string{"007", "1.10", "2024-01-01", "1e3", "0x1F", "0o17", "+1", "1_000", ".5", "~", "0.0"}
+)
+
+// TestVFC13SpellingPreserved: "settings a step does not concern are preserved",
+// judged where it matters, at the running configuration.  A string setting of an
+// old configuration file is given another plain spelling; the start that
+// upgrades the file must end with the same running configuration as a start on
+// an already current file in which the same setting has the same spelling.
+func TestVFC13SpellingPreserved(t *testing.T) {
+	vfkit.Begin(t)
+	log.SetOutput(io.Discard)
+
+	repo := os.Getenv("VERIF_REPO")
+	if repo == "" {
+		repo = "/repo"
+	}
+	golden := filepath.Join(repo, "internal", "configmigrate", "testdata", "TestMigrateConfig_Migrate")
+	ents, err := os.ReadDir(golden)
+	if err != nil {
+		t.Fatalf("VERIF-INCONCLUSIVE reading %s: %v", golden, err)
+	}
+	type input struct {
+		name    string
+		old     []byte
+		current []byte
+	}
+	var inputs []input
+	for _, e := range ents {
+		b, rerr := os.ReadFile(filepath.Join(golden, e.Name(), "input.yml"))
+		if rerr != nil {
+			continue
+		}
+		var ver struct {
+			V uint `yaml:"schema_version"`
+		}
+		if yaml.Unmarshal(b, &ver) != nil || ver.V+4 < configmigrate.LastSchemaVersion {
+			// paths of settings move between distant versions
+			continue
+		}
+		dir := t.TempDir()
+		m := configmigrate.New(&configmigrate.Config{WorkingDir: dir, DataDir: filepath.Join(dir, "data")})
+		cur, upgraded, merr := m.Migrate(b, configmigrate.LastSchemaVersion)
+		if merr != nil || !upgraded {
+			continue
+		}
+		inputs = append(inputs, input{name: e.Name(), old: b, current: cur})
+	}
+	if len(inputs) < 2 {
+		t.Fatalf("VERIF-INCONCLUSIVE only %d recent historical configurations found", len(inputs))
+	}
+
+	defaults, err := yaml.Marshal(config)
+	if err != nil {
+		t.Fatalf("VERIF-INCONCLUSIVE marshalling the default configuration: %v", err)
+	}
+	prevConfig, prevDir := config, globalContext.workDir
+	defer func() { config, globalContext.workDir = prevConfig, prevDir }()
+	start := func(body []byte) (snapshot []byte, serr error) {
+		dir, derr := os.MkdirTemp("", "vfc13spell")
+		if derr != nil {
+			t.Fatalf("VERIF-INCONCLUSIVE mkdir: %v", derr)
+		}
+		defer os.RemoveAll(dir)
+		globalContext.workDir = dir
+		initConfigFilename(options{})
+		if werr := os.WriteFile(configFilePath(), body, 0o644); werr != nil {
+			t.Fatalf("VERIF-INCONCLUSIVE write: %v", werr)
+		}
+		c := &configuration{}
+		if uerr := yaml.Unmarshal(defaults, c); uerr != nil {
+			t.Fatalf("VERIF-INCONCLUSIVE re-reading the default configuration: %v", uerr)
+		}
+		config = c
+		if serr = parseConfig(); serr != nil {
+			return nil, serr
+		}
+		config.fileData = nil
+		// the one setting the last step does concern; it names the directory
+		if config.Filtering != nil {
+			config.Filtering.SafeFSPatterns = nil
+		}
+		snapshot, merr := yaml.Marshal(config)
+		if merr != nil {
+			t.Fatalf("VERIF-INCONCLUSIVE marshalling the running configuration: %v", merr)
+		}
+
+		return snapshot, nil
+	}
+
+	_, open := vfkit.KnownOpen("C13", vfC13SigRetyped)
+	reported := false
+	rapid.Check(t, func(t *rapid.T) {
+		in := rapid.SampledFrom(inputs).Draw(t, "historical_config")
+		var oldDoc, curDoc yaml.Node
+		if yaml.Unmarshal(in.old, &oldDoc) != nil || yaml.Unmarshal(in.current, &curDoc) != nil {
+			t.Fatalf("VERIF-INCONCLUSIVE %s does not parse", in.name)
+		}
+		var paths []vfC13Path
+		vfC13StringScalars(&oldDoc, nil, &paths)
+		// only settings that sit at the same place in the current schema
+		var shared []vfC13Path
+		for _, p := range paths {
+			if n := vfC13NodeAt(&curDoc, p); n != nil && n.Kind == yaml.ScalarNode && n.ShortTag() == "!!str" {
+				shared = append(shared, p)
+			}
+		}
+		if len(shared) == 0 {
+			t.Fatalf("VERIF-INCONCLUSIVE %s: no string setting keeps its place", in.name)
+		}
+		n := rapid.IntRange(1, 3).Draw(t, "n_settings")
+		lookAlike := false
+		var desc []string
+		for i := 0; i < n; i++ {
+			p := rapid.SampledFrom(shared).Draw(t, fmt.Sprintf("setting%d", i))
+			pool := vfC13PlainStrings
+			if rapid.IntRange(0, 2).Draw(t, fmt.Sprintf("lookalike%d", i)) == 0 {
+				pool = vfC13LookAlikes
+			}
+			text := rapid.SampledFrom(pool).Draw(t, fmt.Sprintf("spelling%d", i))
+			if vfStrIn(text, vfC13LookAlikes) {
+				if open {
+					// the listed finding, kept out by construction
+					vfC13H.Excluded(vfC13SigRetyped)
+					text = "abc"
+				} else {
+					lookAlike = true
+				}
+			}
+			vfC13Respell(vfC13NodeAt(&oldDoc, p), text)
+			vfC13Respell(vfC13NodeAt(&curDoc, p), text)
+			desc = append(desc, strings.Join(p, ".")+": "+text)
+		}
+		oldBody, err1 := yaml.Marshal(&oldDoc)
+		curBody, err2 := yaml.Marshal(&curDoc)
+		if err1 != nil || err2 != nil {
+			t.Fatalf("VERIF-INCONCLUSIVE encoding: %v %v", err1, err2)
+		}
+
+		upgradedRun, errUp := start(oldBody)
+		currentRun, errCur := start(curBody)
+		vfC13H.Eval()
+		vfC13H.Class(fmt.Sprintf("spelling:lookalike=%t", lookAlike))
+		vfC13H.Nontrivial("spelling|" + in.name + "|" + strings.Join(desc, "|"))
+		switch {
+		case errUp != nil && errCur != nil:
+			vfC13H.Class("spelling:both_starts_refuse")
+		case errUp != nil || errCur != nil:
+			t.Fatalf("with %v in the %s configuration the start that upgrades the file says %v, a start on the current file with the same spelling says %v",
+				desc, in.name, errUp, errCur)
+		case !bytes.Equal(upgradedRun, currentRun):
+			t.Fatalf("with %v in the %s configuration the start that upgrades the file runs with other settings than a start on a current file with the same spelling:\n%s",
+				desc, in.name, vfC13Diff(currentRun, upgradedRun))
+		}
+	})
+
+	if open && !reported {
+		reported = true
+		// the shape of the listed finding, shown on one fixed input
+		in := inputs[len(inputs)-1]
+		var oldDoc, curDoc yaml.Node
+		_ = yaml.Unmarshal(in.old, &oldDoc)
+		_ = yaml.Unmarshal(in.current, &curDoc)
+		var paths []vfC13Path
+		vfC13StringScalars(&oldDoc, nil, &paths)
+		for _, p := range paths {
+			a, b := vfC13NodeAt(&oldDoc, p), vfC13NodeAt(&curDoc, p)
+			if b == nil || b.Kind != yaml.ScalarNode || b.ShortTag() != "!!str" || p[0] != "users" {
+				continue
+			}
+			vfC13Respell(a, "007")
+			vfC13Respell(b, "007")
+			oldBody, _ := yaml.Marshal(&oldDoc)
+			curBody, _ := yaml.Marshal(&curDoc)
+			up, e1 := start(oldBody)
+			cur, e2 := start(curBody)
+			if e1 == nil && e2 == nil && !bytes.Equal(up, cur) {
+				vfC13H.KnownLine(fmt.Sprintf("%s: %s set to the plain scalar 007 in the %s configuration: after the upgrade the program runs with %q, on a current file with the same spelling with \"007\"",
+					vfC13SigRetyped, strings.Join(p, "."), in.name, strings.TrimSpace(vfC13Diff(cur, up))))
+			} else {
+				t.Fatalf("the listed finding %s no longer shows on %s (%v %v): remove it from known_findings.json", vfC13SigRetyped, strings.Join(p, "."), e1, e2)
+			}
+
+			break
+		}
+	}
+}
+
+func vfStrIn(s string, ss []string) (ok bool) {
+	for _, x := range ss {
+		if x == s {
+			return true
+		}
+	}
+
+	return false
 }
